@@ -260,6 +260,27 @@ func (d *direction) deliver(wait, settle time.Duration) (*wireMsg, bool) {
 	return m, ok
 }
 
+// deliverPartial releases only the first n bytes of the oldest queued message (its
+// header and part of its payload) and waits until the reader has consumed them and
+// waits for the rest. The remainder stays queued.
+func (d *direction) deliverPartial(n int, settle time.Duration) bool {
+	d.mu.Lock()
+	if len(d.queue) == 0 || n >= len(d.queue[0].raw) {
+		d.mu.Unlock()
+		return false
+	}
+	m := d.queue[0]
+	d.released = append(d.released, m.raw[:n]...)
+	rest := *m
+	rest.raw = append([]byte(nil), m.raw[n:]...)
+	d.queue[0] = &rest
+	d.queued -= n
+	d.waiting = false
+	d.cond.Broadcast()
+	d.mu.Unlock()
+	return d.waitFor(settle, func() bool { return (len(d.released) == 0 && d.waiting) || d.rclosed })
+}
+
 // inject queues a crafted message as if the sender had written it (gated mode).
 func (d *direction) inject(m *wireMsg) {
 	d.mu.Lock()
